@@ -105,6 +105,7 @@ func compressJobs(tier, prop string) []*Job {
 		}
 		periodic([]int{0, 1, 3, 4}, func(n int) []int { return []int{-1} })
 		litrun([]int{0, 3}, func(l, n int) []int { return []int{-1} })
+		jobs = append(jobs, histJobs(tier)...)
 		// window family: sources just over 64 KiB (concrete periodic filler) holding the same
 		// 8-byte window twice, 65534..65537 bytes apart, the second copy where the scan probes
 		for _, d := range []int{65534, 65535, 65536, 65537} {
@@ -175,7 +176,10 @@ func compressJobs(tier, prop string) []*Job {
 		}
 		periodic([]int{0, 3}, func(n int) []int { return []int{-1, -2, n / 2, n / 4, 8, 3} })
 		litrun([]int{0, 3}, func(l, n int) []int {
-			return dedup([]int{0, 1, 2, 3, 4, 5, l, l + 1, l + 2, l + 3, l + 4, l + 5, l + 6, l + 8, n / 2, -3, -2, -1})
+			if thorough {
+				return dedup([]int{0, 1, 2, 3, 4, 5, l, l + 1, l + 2, l + 3, l + 4, l + 5, l + 6, l + 8, n / 2, -3, -2, -1})
+			}
+			return dedup([]int{0, 1, 2, 3, l + 1, l + 2, l + 3, l + 5, n / 2, -2, -1})
 		})
 	}
 	return jobs
@@ -223,12 +227,30 @@ func detJobs(tier string) []*Job {
 			}
 		}
 	}
-	// real histories: a first (usually failing) call on the same object, then the call under test
+	jobs = append(jobs, histJobs(tier)...)
+	for n := 0; n <= nh; n++ {
+		for _, d := range []int{0, 1, 2, 512} {
+			if tier != "thorough" && n > 14 && d == 1 {
+				continue
+			}
+			add(n, 4, 3, d, -1)
+			if d == 0 || d == 512 {
+				add(n, 5, 3, d, -1)
+				add(n, 4, 3, d, n)
+			}
+		}
+	}
+	return jobs
+}
+
+// histJobs: a first (usually failing) call on the same object, then the call under test.
+func histJobs(tier string) []*Job {
+	var jobs []*Job
 	type shape struct{ n, period, tail int }
 	firsts := []struct {
 		s   shape
 		dl0 int
-	}{{shape{40, 1, 0}, 2}, {shape{40, 2, 3}, 5}, {shape{31, 3, 0}, 8}, {shape{40, 1, 0}, 60}, {shape{24, 2, 5}, 0}}
+	}{{shape{40, 1, 0}, 2}, {shape{40, 2, 3}, 5}, {shape{31, 3, 0}, 8}, {shape{40, 1, 0}, 60}, {shape{24, 2, 5}, 0}, {shape{40, 2, 3}, 70}}
 	seconds := []shape{{40, 2, 3}, {31, 1, 5}, {64, 3, 1}, {40, 1, 0}}
 	for _, kind := range []int{0, 3} {
 		for fi, f := range firsts {
@@ -241,10 +263,15 @@ func detJobs(tier string) []*Job {
 					if tier != "thorough" && (fi+si+dl)%2 != 0 && kind == 0 {
 						continue
 					}
-					j := mkJob(fmt.Sprintf("hist-k%d-d%d-f%d-s%d-dl%d", kind, depth, fi, si, dl), "H_compress_hist", "internal/lz4block", "verif,noasm",
-						P("kind", kind, "depth", depth, "n0", f.s.n, "period0", f.s.period, "tail0", f.s.tail, "dl0", f.dl0, "n", sc.n, "period", sc.period, "tail", sc.tail, "dl", dl))
-					j.Unwind = 6000
-					jobs = append(jobs, j)
+					for _, nmid := range []int{-1, 5} {
+						if nmid >= 0 && (f.dl0 < 60 || dl != -1) {
+							continue // the three-step history: successful block, tiny block, block under test
+						}
+						j := mkJob(fmt.Sprintf("hist-k%d-d%d-f%d-s%d-dl%d-m%d", kind, depth, fi, si, dl, nmid), "H_compress_hist", "internal/lz4block", "verif,noasm",
+							P("kind", kind, "depth", depth, "n0", f.s.n, "period0", f.s.period, "tail0", f.s.tail, "dl0", f.dl0, "n", sc.n, "period", sc.period, "tail", sc.tail, "dl", dl, "nmid", nmid))
+						j.Unwind = 6000
+						jobs = append(jobs, j)
+					}
 				}
 			}
 		}
@@ -252,7 +279,9 @@ func detJobs(tier string) []*Job {
 	// frame level, sequential: the same input delivered in two ways (no Flush) gives identical frames
 	fr := &lcg{s: 4242}
 	for _, n := range []int{0, 1, 7, 40} {
-		for _, pair := range [][2]int{{0, 1}, {0, 8}, {0, 4}, {1, 5}, {4, 7}, {1, 8}} {
+		// only Write-call partitions: the statement is about splits across Write calls (ReadFrom
+		// legitimately emits an extra empty block for an empty source)
+		for _, pair := range [][2]int{{0, 1}, {0, 8}, {1, 8}, {1, 1}} {
 			if n == 40 && pair[1] == 8 && tier != "thorough" {
 				continue
 			}
@@ -264,18 +293,6 @@ func detJobs(tier string) []*Job {
 				P("n", n, "period", period, "bs", 4+fr.next(4), "bc", fr.next(2), "cc", fr.next(2), "sizeopt", fr.next(2), "level", fr.next(2), "legacy", 0, "delivA", pair[0], "delivB", pair[1], "k", fr.next(n+1), "k2", fr.next(n+1)))
 			j.Unwind = 6000
 			jobs = append(jobs, j)
-		}
-	}
-	for n := 0; n <= nh; n++ {
-		for _, d := range []int{0, 1, 2, 512} {
-			if tier != "thorough" && n > 14 && d == 1 {
-				continue
-			}
-			add(n, 4, 3, d, -1)
-			if d == 0 || d == 512 {
-				add(n, 5, 3, d, -1)
-				add(n, 4, 3, d, n)
-			}
 		}
 	}
 	return jobs
@@ -350,7 +367,7 @@ func init() {
 		Property: "C14",
 		Jobs:     detJobs,
 		Bounds:   compressBounds("C14"),
-		Outside:  append([]string{"frame level: independence from concurrency level and goroutine scheduling (no goroutines in the executor); only the sequential clause (same input split differently across Write/ReadFrom calls, 24 pairs of delivery shapes) is checked at frame level"}, compressOutside...),
+		Outside:  append([]string{"frame level: independence from concurrency level and goroutine scheduling (no goroutines in the executor); only the sequential clause (same input split differently across Write calls: one Write, two Writes at two split points, byte by byte) is checked at frame level"}, compressOutside...),
 		Assumptions: compressAssumptions,
 	}
 }
